@@ -44,6 +44,20 @@ def lowbit(t):
     return None
 
 
+def _is_view(t, depth=0):
+    """t is the guest buffer handed to a stream method (its 2nd parameter) or a view derived from it (offset / subslice / clone / `?`)"""
+    t = unref(t)
+    if depth > 8:
+        return False
+    if t[:2] == ('param', 2):
+        return True
+    if t[0] in ('ok', 'vfield'):
+        return _is_view(t[1], depth + 1)
+    if t[0] == 'call' and t[2] and canon(t[1]).split("::")[-1] in ("offset", "subslice", "clone", "deref", "branch", "split_at", "as_volatile_slice", "to_slice", "borrow"):
+        return _is_view(t[2][0], depth + 1)
+    return False
+
+
 def run(ctx, progs):
     for cfg, prog in progs.items():
         ctx.config = cfg
@@ -221,6 +235,34 @@ def run(ctx, progs):
                     _pb, o = eff.lift(cb, c0.args()[-1])
                     ok = unref(o)[:2] == ('param', 4 if nm == "store" else 3)
                 ctx.ob("R6.8.order_passed", b.key, ok, b.where(), "the caller's `order` reaches AtomicInteger::" + nm + " unchanged")
+        # ------------------------------------------------------------ R6.9 a single-shot stream method moves its guest buffer in ONE transfer
+        # `read_volatile` / `write_volatile` of a stream adapter receive one guest buffer; if the adapter hands two pieces of it to
+        # two transfers on the same path (e.g. "overwrite part" + "append part"), an aligned 2/4/8-byte guest access is issued as two
+        # narrower ones. On every path at most one call may receive (a view of) the buffer.
+        GETTERS = re.compile(r"VolatileSlice::(len|is_empty|offset|subslice|split_at|ptr_guard|ptr_guard_mut|bitmap|clone)$|Clone::clone$|Deref::deref$|Try::branch$|"
+                             r"VolatileMemory::(len|is_empty)$|Result::|Option::|From::from$|FromResidual::from_residual$")
+        n9 = 0
+        for b in prog.bodies:
+            if b.impl_trait not in ("io::ReadVolatile", "io::WriteVolatile") or b.name not in ("read_volatile", "write_volatile"):
+                continue
+            n9 += 1
+            xfers = []
+            for fb in prog.family(b):
+                for c in fb.calls():
+                    cn = canon(c.target or c.callee or "")
+                    if GETTERS.search(cn):
+                        continue
+                    args = [eff.in_parent(fb, a)[1] if fb is not b else a for a in c.args()]
+                    if any(_is_view(a) for a in args):
+                        xfers.append((fb, c, cn))
+            twice = [(x, y) for i, x in enumerate(xfers) for y in xfers[i + 1:]
+                     if x[0] is y[0] and (y[1].bb in x[0].reachable(x[1].bb) or x[1].bb in x[0].reachable(y[1].bb)) and x[1].bb != y[1].bb]
+            twice += [(x, y) for i, x in enumerate(xfers) for y in xfers[i + 1:] if x[0] is y[0] and x[1].bb == y[1].bb]
+            ctx.ob("R6.9.single_transfer", b.key, not twice, b.where(),
+                   f"{len(xfers)} call(s) receive the guest buffer: {[x[2].split('::')[-1] for x in xfers]}; "
+                   + ("no path performs two of them" if not twice else
+                      f"`{twice[0][0][2].split('::')[-1]}` and `{twice[0][1][2].split('::')[-1]}` lie on one path: one guest buffer is moved in two transfers (an aligned access may be torn)"))
+        ctx.floor("R6.9.single_shot_methods", n9, 8, MIN=8)
     ctx.not_decided = ["what a concurrent observer sees (schedules)", "codegen: one volatile access => one instruction"]
     return ctx.finish(
         "other",
